@@ -441,6 +441,21 @@ def requests_parts():
                '''),
         ]),
         Impl('impl<C: Channel> Requests<C>', fx_type='SFx', qual='Requests', parts=[
+            Fn(SRC, r'pub trait Channel where .*', 'requests', tags='C10,C14',
+               rules=[
+                   Rule('R5:requests-sig', r'fn requests\(self\) -> Requests<Self>\s*where\s*Self: Sized,', 'fn requests(this: C) -> Requests<C>', 1, where='sig', flags=re.M | re.S,
+                        why='default method of the trait emitted as an associated function of Requests<C> (self by value -> a named parameter)'),
+                   Rule('R5:requests-queue', r'mpsc::channel\(self\.config\(\)\.pending_response_buffer\)', 'response_queue_model()', 1, where='body',
+                        why='prelude model of the response fan-in queue; the buffer size (a pure getter on the config) is not part of any contract'),
+                   Rule('R5:requests-self', r'channel: self,', 'channel: this,', 1, where='body', why='see R5:requests-sig'),
+               ],
+               requires='this.cinv() && !this.cv().failed && !this.cv().closed, // @core (a channel that has not failed or been closed yet)',
+               ensures='''
+                 // the induction base of the request stream's invariant: it wraps exactly the given channel, which it has not touched
+                 r.inv() && r.channel == this, // @core:C10,C14
+                 !r.pending_responses@.drained, // @C10
+               '''),
+
             RQ_VOCAB,
             F(RQ_IMPL, 'ensure_writeable', tags='C14',
               requires='old(self).inv(), // @core',
